@@ -36,6 +36,7 @@ TRAP_MSG = {"div0": "division by 0", "assert": "assert failed", "index": "array 
             "stackoverflow": "stack overflow", "illegal": "illegal state", "overflow": "overflow",
             "shift": "shift amount out of bounds"}
 WORKERS = 16
+QUICK_N = 72
 RUN_TIMEOUT = 20
 
 
@@ -109,35 +110,42 @@ def cache_dir(tc, seed, tag=None):
     return os.path.join(C.BUILD, "progs", tc["hash"], "%s-%s" % (seed, tag or gen_hash()))
 
 
-def compile_and_run(tc, src, workdir, backend, env_flags=None, keep=False):
-    """Compile `src` with one back end, run it, return the observation dict."""
-    exe = os.path.join(workdir, "exe_" + backend)
+def compile_only(tc, src, exe, backend):
+    """(ok, log)"""
     cmd = [tc["dora"], "compile"] + (["--cannon"] if backend == "cannon" else []) + [src, "-o", exe]
-    rc, out, err = C.sh2(cmd, timeout=300)
-    obs = dict(backend=backend)
-    if rc != 0 or not os.path.exists(exe):
-        text = (out + err)
-        obs.update(compile_rc=rc, compile_log=text[-3000:], status="compile-failed")
-        return obs
-    env = {"DORA_FLAGS": env_flags} if env_flags else None
+    rc, out, err = C.sh2(cmd, timeout=900)
+    ok = rc == 0 and os.path.exists(exe)
+    return ok, rc, (out + err)
+
+
+def run_exe(exe, workdir, backend, args=(), env_flags=None):
     import subprocess
     e = dict(os.environ)
-    if env:
-        e.update(env)
+    if env_flags:
+        e["DORA_FLAGS"] = env_flags
     try:
-        p = subprocess.run([exe], stdout=subprocess.PIPE, stderr=subprocess.PIPE, timeout=RUN_TIMEOUT, env=e,
-                           cwd=workdir)
+        p = subprocess.run([exe] + list(args), stdout=subprocess.PIPE, stderr=subprocess.PIPE, timeout=RUN_TIMEOUT,
+                           env=e, cwd=workdir)
         rcode, so, se = p.returncode, p.stdout, p.stderr
     except subprocess.TimeoutExpired as ex:
         rcode, so, se = "timeout", ex.stdout or b"", ex.stderr or b""
+    se_t = se.decode("utf-8", "replace")
+    return dict(backend=backend, status="ran", rc=rcode, stdout=so.hex(),
+                stderr1=(se_t.splitlines() or [""])[0][:300], stderr=se_t[:1500])
+
+
+def compile_and_run(tc, src, workdir, backend, env_flags=None, keep=False):
+    """Compile `src` with one back end, run it, return the observation dict."""
+    exe = os.path.join(workdir, "exe_" + backend)
+    ok, rc, log = compile_only(tc, src, exe, backend)
+    if not ok:
+        return dict(backend=backend, compile_rc=rc, compile_log=log[-3000:], status="compile-failed")
+    obs = run_exe(exe, workdir, backend, env_flags=env_flags)
     if not keep:
         try:
             os.unlink(exe)
         except OSError:
             pass
-    se_t = se.decode("utf-8", "replace")
-    obs.update(status="ran", rc=rcode, stdout=so.hex(), stderr1=(se_t.splitlines() or [""])[0][:300],
-               stderr=se_t[:1500])
     return obs
 
 
@@ -170,32 +178,107 @@ def classify(obs):
     return "exit:%d" % rc
 
 
-def process_one(tc, cdir, prog):
-    """Generate-or-load one program's observations. Returns dict(name, features, boundary, sexp, obs{backend})."""
-    pdir = os.path.join(cdir, prog.name)
-    res_file = os.path.join(pdir, "result.json")
+BATCH = 12
+
+
+def load_cached(cdir, prog):
+    res_file = os.path.join(cdir, prog.name, "result.json")
     if os.path.exists(res_file):
         try:
             return json.load(open(res_file))
         except Exception:
-            pass
+            return None
+    return None
+
+
+def new_result(cdir, prog):
+    pdir = os.path.join(cdir, prog.name)
     os.makedirs(pdir, exist_ok=True)
-    src = os.path.join(pdir, "prog.dora")
-    open(src, "w").write(prog.dora)
+    open(os.path.join(pdir, "prog.dora"), "w").write(prog.dora)
     if prog.sexp is not None:
         open(os.path.join(pdir, "prog.sexp"), "w").write(prog.sexp + "\n")
-    res = dict(name=prog.name, features=sorted(prog.features), boundary=prog.boundary, expect=prog.expect,
-               kind=prog.kind, obs={})
-    for b in BACKENDS:
-        res["obs"][b] = compile_and_run(tc, src, pdir, b)
-    json.dump(res, open(res_file, "w"))
+    return dict(name=prog.name, features=sorted(prog.features), boundary=prog.boundary, expect=prog.expect,
+                kind=prog.kind, obs={})
+
+
+def save_result(cdir, res):
+    json.dump(res, open(os.path.join(cdir, res["name"], "result.json"), "w"))
+
+
+def process_one(tc, cdir, prog, backends=BACKENDS, res=None):
+    """one program as its own executable"""
+    res = res or new_result(cdir, prog)
+    pdir = os.path.join(cdir, prog.name)
+    for b in backends:
+        res["obs"][b] = compile_and_run(tc, os.path.join(pdir, "prog.dora"), pdir, b)
+    res["batched"] = False
+    save_result(cdir, res)
     return res
 
 
-def build_results(tc, programs, cdir):
+def process_batch(tc, cdir, idx, members):
+    """several programs in one compile unit (gen/progs.py batch_source): one compile + link per back end, one
+    process run per member.  If the unit does not compile (a compiler crash on one member), the members are
+    compiled one by one with that back end, so the failure is attributed to the program that causes it."""
+    bdir = os.path.join(cdir, "batch_%d_%s" % (idx, members[0].name))
+    os.makedirs(bdir, exist_ok=True)
+    src = os.path.join(bdir, "batch.dora")
+    open(src, "w").write(G.batch_source(members))
+    results = [new_result(cdir, p) for p in members]
+    for b in BACKENDS:
+        exe = os.path.join(bdir, "exe_" + b)
+        ok, rc, log = compile_only(tc, src, exe, b)
+        if ok:
+            for p, res in zip(members, results):
+                res["obs"][b] = run_exe(exe, bdir, b, args=[p.name])
+            try:
+                os.unlink(exe)
+            except OSError:
+                pass
+        else:
+            for p, res in zip(members, results):
+                process_one(tc, cdir, p, backends=[b], res=res)
+    for res in results:
+        res["batched"] = True
+        save_result(cdir, res)
+    shutil.rmtree(bdir, ignore_errors=True)
+    return results
+
+
+def build_results(tc, programs, cdir, batch=True):
     os.makedirs(cdir, exist_ok=True)
+    by_name = {}
+    todo = []
+    for p in programs:
+        r = load_cached(cdir, p)
+        if r is not None and all(b in r.get("obs", {}) for b in BACKENDS):
+            by_name[p.name] = r
+        else:
+            todo.append(p)
+    groups, single = [], []
+    cur = []
+    for p in todo:
+        if batch and G.batchable(p):
+            cur.append(p)
+            if len(cur) == BATCH:
+                groups.append(cur)
+                cur = []
+        else:
+            single.append(p)
+    if len(cur) == 1:
+        single += cur
+    elif cur:
+        groups.append(cur)
     with cf.ThreadPoolExecutor(max_workers=WORKERS) as ex:
-        results = list(ex.map(lambda p: process_one(tc, cdir, p), programs))
+        futs = [ex.submit(process_batch, tc, cdir, i, g) for i, g in enumerate(groups)]
+        futs1 = [ex.submit(process_one, tc, cdir, p) for p in single]
+        for f in futs:
+            for r in f.result():
+                by_name[r["name"]] = r
+        for f in futs1:
+            r = f.result()
+            by_name[r["name"]] = r
+    results = [by_name[p.name] for p in programs]
     # a time-out under machine load is not a verdict: run those again, alone, with a long limit
     global RUN_TIMEOUT
     for res in results:
@@ -207,8 +290,39 @@ def build_results(tc, programs, cdir):
                     res["obs"][b] = compile_and_run(tc, os.path.join(pdir, "prog.dora"), pdir, b)
                 finally:
                     RUN_TIMEOUT = old
-                json.dump(res, open(os.path.join(pdir, "result.json"), "w"))
+                save_result(cdir, res)
     return results
+
+
+def confirm_individually(tc, cdir, prog, res, suspicious):
+    """an observation made inside a batch executable that looks wrong is repeated with the program compiled on
+    its own (the batch wrapper must never be the reason for a finding)"""
+    if res.get("batched") and suspicious:
+        fresh = new_result(cdir, prog)
+        return process_one(tc, cdir, prog, res=fresh)
+    return res
+
+
+def reduce_compile_crash(tc, prog, backend, site, workdir):
+    """line-based reduction of a program on which the compiler itself fails (same crash site)"""
+    os.makedirs(workdir, exist_ok=True)
+
+    def pred(lines):
+        src = os.path.join(workdir, "r.dora")
+        open(src, "w").write("\n".join(lines) + "\n")
+        ok, rc, log = compile_only(tc, src, os.path.join(workdir, "r_exe"), backend)
+        try:
+            os.unlink(os.path.join(workdir, "r_exe"))
+        except OSError:
+            pass
+        return (not ok) and crash_site(dict(status="compile-failed", compile_log=log)) == site
+    try:
+        out = shrink_lines(prog.dora.splitlines(), pred, budget=150)
+        return "\n".join(l for l in out if l.strip()) + "\n"
+    except Exception:
+        return None
+    finally:
+        shutil.rmtree(workdir, ignore_errors=True)
 
 
 def crash_site(obs):
@@ -376,12 +490,18 @@ def shrink_lines(lines, pred, budget=400):
 
 
 def run(ctx):
+    import time
+    t0 = time.time()
     po = C.proof_obligations(ctx, PROP_MODULE, PROP_FILE, hygiene_paths=("DoraModel/Mini", PROP_FILE))
     drv, dlog = C.lean_exe("drv_c01")
+    C.log("[c01] proofs+driver %.0fs" % (time.time() - t0))
     if drv is None:
         raise RuntimeError("driver build failed:\n" + dlog[-3000:])
+    t0 = time.time()
     tc = toolchain()
-    n = 120 if ctx.tier == "quick" else 3000
+    C.log("[c01] tool chain %s %.0fs" % (tc["hash"], time.time() - t0))
+    t0 = time.time()
+    n = QUICK_N if ctx.tier == "quick" else 3000
     if ctx.replay:
         r = json.load(open(ctx.replay))
         programs = [G.gen_program(r.get("gen_seed", ctx.seed), r["index"])] if "index" in r else []
@@ -389,13 +509,18 @@ def run(ctx):
         programs = [G.gen_program(ctx.seed, i) for i in range(n)]
     cdir = cache_dir(tc, ctx.seed)
     results = build_results(tc, programs, cdir)
+    C.log("[c01] %d programs compiled+run (or cached) %.0fs" % (len(programs), time.time() - t0))
     mini = run_mini(drv, programs)
     stats = dict(evaluations=0, nontrivial=set(), hist={}, traps={}, disagreements=0, oracle_failures=0,
                  samples=[], outcomes={}, mini_problems=0)
     by_name = {p.name: p for p in programs}
+    reduced_keys = set()
     for res in results:
         p = by_name[res["name"]]
         m = mini[p.name]
+        if not m[1].startswith(("stuck", "oof", "parse-error")):
+            res = confirm_individually(tc, cdir, p, res, any(
+                classify(res["obs"][b]).startswith("undefined:") or mini_matches(m, res["obs"][b]) for b in BACKENDS))
         stats["evaluations"] += 1
         for f in res["features"]:
             stats["hist"][f] = stats["hist"].get(f, 0) + 1
@@ -425,8 +550,13 @@ def run(ctx):
             cl = classify(obs)
             if cl.startswith("undefined:"):
                 stats["oracle_failures"] += 1
-                ctx.finding("oracle:crash:%s:%s" % (b, crash_site(obs)),
-                            dict(kind="oracle", index=int(p.name.split("_")[1]), gen_seed=ctx.seed, backend=b,
+                ckey = "oracle:crash:%s:%s" % (b, crash_site(obs))
+                minimal = None
+                if obs.get("status") == "compile-failed" and ckey not in reduced_keys and ckey not in [k for k, _ in ctx.known]:
+                    reduced_keys.add(ckey)
+                    minimal = reduce_compile_crash(tc, p, b, crash_site(obs), os.path.join(cdir, "reduce_%d" % os.getpid()))
+                ctx.finding(ckey,
+                            dict(kind="oracle", index=int(p.name.split("_")[1]), gen_seed=ctx.seed, backend=b, minimal=minimal,
                                  classification=cl, stderr=obs.get("stderr", obs.get("compile_log", ""))[:1500],
                                  dora=p.dora, how_to_replay="./check C01 --replay <this file>"),
                             "%s back end: %s on valid program %s" % (b, cl, p.name))
